@@ -18,6 +18,8 @@ EXTENDS Conn, Json, IOUtils
 Log == ndJsonDeserialize(IOEnv.VF_TRACE)
 TraceReq == {Log[i].req : i \in 1 .. Len(Log)} \ {""}      \* request ids are strings "q<n>"
 TraceSid == {Log[i].stream : i \in 1 .. Len(Log)} \ {0}
+TraceHB == {Log[i].req : i \in {j \in 1 .. Len(Log) : Log[j].ev = "hb_tick"}}   \* the heartbeat's requests "h<k>"
+TraceTimeoutLimit == IF Len(Log) > 0 THEN Log[1].tl ELSE 0
 
 VARIABLES l,      \* next log line
           drift   \* steps where the code's discipline differed from the model's without
@@ -40,13 +42,15 @@ TCtx == Ev("x_ctx") /\ (\E r \in NeverStreamed : Start(r) /\ pc'[r] = "done") /\
 \* GetStream succeeded: context check passed and an id was allocated (two model steps)
 TStream == /\ Ev("x_stream")
            /\ pc[E.req] = "idle" /\ E.stream \in Sid \ inuse
+           /\ (E.req \in HBReq => hbpc = "exec" /\ hbreq = E.req)
            /\ inuse' = inuse \cup {E.stream}
            /\ sid' = [sid EXCEPT ![E.req] = E.stream]
            /\ pc' = [pc EXCEPT ![E.req] = "addcall"]
            /\ UNCHANGED <<calls, closed, toClosed, resp, out, written, released, consumed, c2s, pending,
                           answers, s2c, unsol, srvClosed, rpc, rhead, rcall, rerr, cpc, cerr, cq, connCtxDone, sockClosed, drift>>
 TNoStream == /\ Ev("x_nostream")
-             /\ \E r \in NeverStreamed : pc[r] = "idle" /\ Finish(r, O("nostreams"))
+             /\ \E r \in NeverStreamed : /\ pc[r] = "idle" /\ (r \in HBReq => hbpc = "exec" /\ hbreq = r)
+                                          /\ Finish(r, O("nostreams"))
              /\ UNCHANGED <<inuse, calls, closed, sid, toClosed, resp, written, released, consumed, c2s, pending,
                             answers, s2c, unsol, srvClosed, rpc, rhead, rcall, rerr, cpc, cerr, cq, connCtxDone, sockClosed, drift>>
 TAddCall == /\ Ev("x_addcall") /\ AddCall(E.req)
@@ -187,13 +191,30 @@ TNClose == Ev("n_close") /\ SrvClose /\ UNCHANGED drift
 TNUnsol == Ev("n_unsol") /\ SrvUnsolicited(E.stream) /\ UNCHANGED drift
 TOther == (Ev("other")) /\ Stutter
 
+\* ---- heartBeat (its OPTIONS request "h<k>" is traced by the exec / recv / node lines above)
+THBTick == Ev("hb_tick") /\ HBTick(E.req) /\ UNCHANGED drift
+\* exec returned to the heartbeat (a "ret" line for the request precedes this one): an error counts as a failure now,
+\* a response is judged by the line that follows
+THBRet == /\ Ev("hb_ret")
+          /\ IF E.err = "none" THEN hbreq # None /\ out[hbreq].kind = "resp" /\ UNCHANGED vars
+             ELSE hbreq # None /\ out[hbreq].kind # "resp" /\ HBEval("supported")
+          /\ UNCHANGED drift
+THBEval(name, kind) == Ev(name) /\ hbreq # None /\ out[hbreq].kind = "resp" /\ HBEval(kind) /\ UNCHANGED drift
+THBGiveUp == Ev("hb_giveup") /\ HBGiveUp /\ UNCHANGED drift
+THBExit == Ev("hb_exit") /\ (IF hbpc = "off" THEN UNCHANGED vars ELSE HBExit) /\ UNCHANGED drift
+THB == \/ THBTick \/ THBRet \/ THBGiveUp \/ THBExit
+       \/ THBEval("hb_ok", "supported") \/ THBEval("hb_errframe", "errframe")
+       \/ THBEval("hb_parsefail", "parsefail") \/ THBEval("hb_unknown", "unknown")
+
 TNext ==
-  /\ \/ TCall \/ TCtx \/ TStream \/ TNoStream \/ TAddCall \/ TBuildFail \/ TDel \/ TWBegin \/ TWEnd
-     \/ TArm("x_arm_timer", "timeout") \/ TArm("x_arm_ctx", "ctx") \/ TArm("x_arm_conn", "closed")
-     \/ TArmResp \/ TRelease \/ TRet
-     \/ THdr \/ THdrErr \/ TLookup \/ TRClosed \/ TBody \/ TRDeliver \/ TRDropCtx \/ TRNoop
-     \/ TCAlready \/ TCBegin \/ TCDeliver \/ TCSkip \/ TCCancel \/ TCSock \/ TCEnd \/ TExtClose
-     \/ TNRecv \/ TNSend \/ TNClose \/ TNUnsol \/ TOther
+  /\ \/ THB
+     \/ /\ UNCHANGED hbvars
+        /\ \/ TCall \/ TCtx \/ TStream \/ TNoStream \/ TAddCall \/ TBuildFail \/ TDel \/ TWBegin \/ TWEnd
+           \/ TArm("x_arm_timer", "timeout") \/ TArm("x_arm_ctx", "ctx") \/ TArm("x_arm_conn", "closed")
+           \/ TArmResp \/ TRelease \/ TRet
+           \/ THdr \/ THdrErr \/ TLookup \/ TRClosed \/ TBody \/ TRDeliver \/ TRDropCtx \/ TRNoop
+           \/ TCAlready \/ TCBegin \/ TCDeliver \/ TCSkip \/ TCCancel \/ TCSock \/ TCEnd \/ TExtClose
+           \/ TNRecv \/ TNSend \/ TNClose \/ TNUnsol \/ TOther
   /\ Adv
 
 TSpec == TInit /\ [][TNext]_tvars
